@@ -29,6 +29,8 @@ import random as _pyrandom
 import shutil
 import tempfile
 
+from . import _c10ext
+
 LEVEL = "proof"
 RULE = ("histories on SHARED argument objects of seeded data sets (3-4 chromosomes, 80-250 bins; raw coverages sorted / "
         "unsorted / with a gc column / without rows / mostly without coverage, references with and without gc-rmask and "
@@ -79,7 +81,15 @@ RULE = ("histories on SHARED argument objects of seeded data sets (3-4 chromosom
         "also generated since their repair (findings AW, AX, AY): do_fix on an empty target table, autosomes(also=Series) "
         "with a PAR genome, export_nexus_ogt(min_weight>0). NOT generated: do_reference(do_cluster) as an op (finding AV, "
         "fixed: the k-means seeding is in the generated RNG table), object / categorical chromosome columns (by_arm "
-        "recasts them, proposed_fixes/C10-by-arm-recasts-chromosome.md). non-trivial = a history with >= 2 steps or a step run in > 1 process, >= 2 writes or a write "
+        "recasts them, proposed_fixes/C10-by-arm-recasts-chromosome.md). round 4 (harness/props/_c10ext.py): rng_trace_lib = "
+        "cluster.kmeans / pca_sk / reference.create_clusters on matrices from 3x40 to 41x1500 (scikit-learn's randomized SVD "
+        "starts at > 500 bins and >= 4 samples) + five functions of the old table, traces incl. draws made inside libraries "
+        "(generator state moved between two recorded calls), each run under two generator states; alias_probe = 29 real "
+        "calls (13 pipeline steps incl. do_segmentation on a table without rows, 15 array methods, one helper that writes "
+        "its argument by design) x data sets, the changed arguments against the summary of the generated alias table; "
+        "ensure_path_dirs = 1..5 guarded writes x paths with 0..3 directory levels, relative / './' / absolute x trees "
+        "where none / some / all of the levels exist x numbered backups present, final directories AND files against the "
+        "hand-written model and against the program read from the source of ensure_path. non-trivial = a history with >= 2 steps or a step run in > 1 process, >= 2 writes or a write "
         "onto an existing file, a trace with >= 1 draw, a pool with > 1 worker; distinct by hash")
 EXHAUSTIVE = {"quick": True, "thorough": True}  # all histories of length <= 2 over the base alphabet (+ worker variants in thorough)
 ASSUMPTIONS = ["argument objects are those a Python caller would pass: CopyNumArray/GenomicArray tables, lists of "
@@ -90,7 +100,10 @@ TRUSTED_EXTRA = ["purity of the CPython/pandas code is not a theorem: it is esta
                  "concurrent.futures.ProcessPoolExecutor.map ordering; os.rename / os.path.isfile semantics",
                  "numpy global RandomState (np.random.seed makes later draws a function of the seed)",
                  "pomegranate HMM fitting, haar numerics (black boxes; only repeatability is observed)",
-                 "cbs / flasso segmentation need Rscript (absent in this sandbox): left out"]
+                 "cbs / flasso segmentation need Rscript (absent in this sandbox): left out",
+                 "reading rules of the round-4 extractors (stated at the top of harness/extractors/effects_alias.py, "
+                 "effects_rng.py, effects_path.py): what is a new object / a view, which library routines may draw, the "
+                 "statement subset of ensure_path; os.makedirs / os.path.isdir / normpath / abspath semantics"]
 
 # ---------------------------------------------------------------------------------------------
 # data sets (built in the worker from a seed; cached per process)
@@ -1344,8 +1357,15 @@ def _run_gather(case):
 # harness interface
 
 
+def _self():
+    import sys
+    return sys.modules[__name__]
+
+
 def run_impl(case):
     op = case["op"]
+    if op in _c10ext.OPS:
+        return _c10ext.run_impl(_self(), case)
     if op == "history":
         return _run_history(case)
     if op == "ensure_path":
@@ -1363,6 +1383,8 @@ def _failed(impl):
 
 def to_line(case, impl):
     op, i = case["op"], case["in"]
+    if op in _c10ext.OPS:
+        return _c10ext.to_line(_self(), case, impl)
     if _failed(impl):
         impl_j = None
     if op == "history":
@@ -1390,6 +1412,8 @@ def judge(case, impl, resp):
     if "error" in resp:
         return [], ["driver error: " + str(resp["error"])], None
     op, out = case["op"], resp["out"]
+    if op in _c10ext.OPS:
+        return _c10ext.judge(_self(), case, impl, resp)
     spec_fail = list(resp.get("spec") or [])
     disagree = []
     if op == "history":
@@ -1420,6 +1444,8 @@ def nontrivial(case, impl, resp):
     if _failed(impl):
         return False
     op, i = case["op"], case["in"]
+    if op in _c10ext.OPS:
+        return _c10ext.nontrivial(_self(), case, impl, resp)
     if op == "history":
         return len(i["steps"]) >= 2 or any("@p" in s["name"] for s in i["steps"])
     if op == "ensure_path":
@@ -1583,6 +1609,7 @@ def gen_cases(rng, tier):
     cases += _trace_cases(rng, dss[0], n_tr)
     for _ in range(n_ga):
         cases.append(_gather_case(rng))
+    cases += _c10ext.gen_cases(_self(), rng, tier, dss)   # round 4: library draws, alias probes (after the others: case i of seed s stays case i)
     only = os.environ.get("C10_ONLY")  # development (mutation runs): keep only the cases whose tag contains one of these
     if only:
         cases = [c for c in cases if any(t in str(c.get("tag", "")) for t in only.split(","))]
@@ -1613,6 +1640,7 @@ def corpus():
                    (["out.cnn.1"], 2), (["out.cnn"] + ["out.cnn.%d" % j for j in range(1, 11)], 2)):
         cs.append({"op": "ensure_path", "tag": "corpus", "in": {"pre": [[n, "pre:" + n] for n in pre], "path": "out.cnn",
                                                                "writes": k, "guarded": True}})
+    cs += _c10ext.corpus(_self())
     return cs
 
 
